@@ -181,6 +181,9 @@ var props = []PropSpec{
 			{Func: "Check_Schedule", Reach: []string{"refresh", "data-accepted", "data-rejected", "fired", "expired", "used-after-ttl-before-timer-ran", "callback-found-refreshed-template", "done"},
 				Tune: func(c *sym.Config, th bool) { c.ClockMode = "frozen" },
 				Bounds: "all schedules of depth 5 (quick) / 6 (thorough) over {template/refresh, bad template, data, advance by symbolic d, fire a due armed timer, run a pending callback} on 2 keys (two template ids of one observation domain); all timing relations are the solver's"},
+			{Func: "Check_ScheduleAfterLifetime", Reach: []string{"refresh", "expired", "fired", "callback-found-refreshed-template", "done"},
+				Tune: func(c *sym.Config, th bool) { c.ClockMode = "frozen" },
+				Bounds: "schedules that start with a template for the first key and an arbitrary advance, followed by all sequences of 4 (quick) / 5 (thorough) further events (total depth 6 / 7)"},
 		},
 	},
 	{
